@@ -17,6 +17,7 @@ import (
 	"strings"
 	"time"
 
+	wasmtypes "github.com/CosmWasm/wasmd/x/wasm/types"
 	tmdb "github.com/cometbft/cometbft-db"
 	abci "github.com/cometbft/cometbft/abci/types"
 	"github.com/cometbft/cometbft/libs/log"
@@ -39,6 +40,7 @@ import (
 	"github.com/NibiruChain/nibiru/v2/eth"
 	"github.com/NibiruChain/nibiru/v2/x/common/asset"
 	"github.com/NibiruChain/nibiru/v2/x/common/testutil/testapp"
+	devgastypes "github.com/NibiruChain/nibiru/v2/x/devgas/v1/types"
 	"github.com/NibiruChain/nibiru/v2/x/evm"
 	"github.com/NibiruChain/nibiru/v2/x/evm/evmtest"
 	"github.com/NibiruChain/nibiru/v2/x/evm/precompile"
@@ -74,6 +76,15 @@ func runReplicas(r *hx.R, n int, w *hx.W, _ []string) error {
 		apps = append(apps, a)
 	}
 	t0 := time.Date(2024, 1, 1, 0, 0, 0, 0, time.UTC)
+	wasmCode, werr := os.ReadFile(os.Getenv("VERIF_REPO_DIR") + "/x/devgas/v1/keeper/testdata/reflect.wasm")
+	if werr != nil {
+		wasmCode, werr = os.ReadFile("/repo/x/devgas/v1/keeper/testdata/reflect.wasm")
+	}
+	if werr != nil {
+		wasmCode = nil
+	}
+	var devgasContracts []string
+	devgasRound := 0
 	var proposer []byte
 	valPubs := []cryptotypes.PubKey{ed25519.GenPrivKeyFromSecret([]byte("verif-replica-val-1")).PubKey(), ed25519.GenPrivKeyFromSecret([]byte("verif-replica-val-2")).PubKey()}
 	// identical setup on the genesis deliver-state of every replica
@@ -114,6 +125,19 @@ func runReplicas(r *hx.R, n int, w *hx.W, _ []string) error {
 		// rewardWinners then really distributes, with truncation remainders
 		if err := a.OracleKeeper.AllocateRewards(ctx, authtypes.FeeCollectorName, sdk.NewCoins(sdk.NewInt64Coin("unibi", 1_000_003_000)), 1000); err != nil {
 			return fmt.Errorf("allocate oracle rewards: %w", err)
+		}
+		// three wasm contracts registered for dev gas (deployer: account 0), so that a tx can execute several registered contracts
+		if wasmCode != nil {
+			var cs []string
+			for i := 0; i < 3; i++ {
+				c := mustInstantiate(a, ctx, wasmCode, addr(0).String(), "")
+				cs = append(cs, c)
+				w := sdk.AccAddress([]byte(fmt.Sprintf("verif-devgas-w0-%d-....", i))[:20])
+				if _, err := a.DevGasKeeper.RegisterFeeShare(ctx, &devgastypes.MsgRegisterFeeShare{ContractAddress: c, DeployerAddress: addr(0).String(), WithdrawerAddress: w.String()}); err != nil {
+					return fmt.Errorf("register fee share: %w", err)
+				}
+			}
+			devgasContracts = cs
 		}
 		a.BankKeeper.SetDenomMetaData(ctx, mkMetaPc("ulog"))
 		_ = testapp.FundAccount(a.BankKeeper, ctx, addr(0), sdk.NewCoins(sdk.NewInt64Coin("ulog", 1_000_000)))
@@ -237,6 +261,22 @@ func runReplicas(r *hx.R, n int, w *hx.W, _ []string) error {
 			}
 		}
 		_ = period
+		// dev gas: the deployer points every registered contract at a withdrawer that has no account yet; a later tx of the block
+		// executes all of them and pays a fee — the payouts create the withdrawers' accounts (account numbers!)
+		if len(devgasContracts) > 0 && r.Chance(1, 3) {
+			devgasRound++
+			var ups []sdk.Msg
+			for i, c := range devgasContracts {
+				w := sdk.AccAddress([]byte(fmt.Sprintf("verif-devgas-w%d-%d-....", devgasRound, i))[:20])
+				ups = append(ups, &devgastypes.MsgUpdateFeeShare{ContractAddress: c, DeployerAddress: addr(0).String(), WithdrawerAddress: w.String()})
+			}
+			add("devgas-rotate", sign(0, 600_000, ups...))
+			var execs []sdk.Msg
+			for _, c := range devgasContracts {
+				execs = append(execs, &wasmtypes.MsgExecuteContract{Sender: addr(0).String(), Contract: c, Msg: []byte(fmt.Sprintf(`{"change_owner":{"owner":"%s"}}`, addr(0).String()))})
+			}
+			add("devgas-exec", sign(0, 1_200_000, execs...)) // (the reflect contract obeys its owner only)
+		}
 		nrand := 1 + r.Pick(4)
 		for i := 0; i < nrand; i++ {
 			switch r.Pick(10) {
